@@ -1051,6 +1051,7 @@ def build(site, ctx, snippet, store_lhs=None):
     """parse + round-trip + lower one snippet; fills site.expr or site.problem"""
     lang = ctx.lang
     site.snippet = snippet
+    site.operands = sorted(ctx.operand_names)        # hint, replaced by what the lowering actually found
     try:
         if not balanced(snippet):
             raise Problem("malformed", f"emitted expression is not well-formed (unbalanced brackets): {snippet!r}")
